@@ -136,7 +136,8 @@ def client_suites(tier, chk, extra=()):
     """[Suite]; the real runs are done once per process and shared by both oracles"""
     if tier not in _cache:
         _cache[tier] = ([make_case(s, "script-r%s" % s["retries"]) for s in script_specs(tier)],
-                        [make_case(s, "special") for s in special_specs(tier)])
+                        [make_case(s, "special") for s in special_specs(tier)]
+                        + [make_case(s, "peer-close") for s in peer_close_specs()])
     a, b = _cache[tier]
     b = b + [make_case(s, "special") for s in extra]
     return [Suite("scripts", IMPORTS, "%s code" % chk, a, shard=120),
@@ -177,6 +178,9 @@ def run_tcp_recv(size, timeout_units, ticks):
         def setblocking(self, f):
             pass
 
+        def close(self):
+            pass
+
         def recv(self, n):
             d = st["next"][:max(n, 0)]
             st["cur"] = d
@@ -207,6 +211,8 @@ def run_tcp_recv(size, timeout_units, ticks):
     sync.select = types.SimpleNamespace(select=select)
     try:
         out = c._recv(size)
+    except Exception:  # noqa: BLE001 — the real loop never raises; a raise is reported as a disagreement
+        out = None
     finally:
         sync.time, sync.select = saved
     return out, st["iter"]
@@ -223,9 +229,11 @@ def suite_tcp_recv(tier):
             n = r.choice([0, 1, 2, 3, 8, 20])
             ticks.append((bytes(r.randrange(256) for _ in range(n)), r.choice([0, 0, 1, 3, 10, 70])))
         out, iters = run_tcp_recv(size, timeout, ticks)
+        raised = out is None
         term = "(%s, %s, %s, %s)" % (L.copt(size), L.z(timeout),
                                      L.clist("{| k_bytes := %s; k_dt := %s |}" % (L.cbytes(b), L.z(dt)) for b, dt in iters),
-                                     L.cbytes(out))
+                                     "[256%N]" if raised else L.cbytes(out))
+        out = b"" if raised else out
         cases.append(Case(term, {"size": size, "timeout": timeout, "ticks": [(b.hex(), w) for b, w in ticks], "got": out.hex()},
                           kind="tcp_recv", nontrivial=bool(out)))
     return Suite("tcp_recv", IMPORTS, "chk_tcp_recv", cases, shard=300)
@@ -367,6 +375,25 @@ def replay_spec(pid, spec):
     """re-run a case spec on the implementation; True if the (python mirror of the) oracle still fails"""
     c = make_case(spec, "replay")
     return bool(failing_txns(pid, c.desc))
+
+
+def peer_close_specs():
+    """the peer closes (or half-closes) after the request was written, at every read boundary of _recv: before any
+    reply byte, after exactly the minimum read (8 bytes on TCP), inside the body, half-close then nothing — for every
+    client kind, retry setting and flag combination, each followed by the healthy follow-up"""
+    specs = []
+    i = 0
+    for kind in L.KINDS:
+        for retries in (0, 1, 2, 3, None):
+            for flags in FLAGS:
+                for b in ("close", "close8", "closek", "halfclose"):
+                    i += 1
+                    reqs = [q for q in REQS if q != "write_coil"] if L.FRAMING[kind] == "FBin" else REQS
+                    tail = [("full", {})] if i % 2 else [(b, {"k": i}), ("exc", {})]
+                    specs.append(dict(kind=kind, retries=retries, roe=flags[0], roi=flags[1], tid0=TIDS[i % len(TIDS)],
+                                      txs=[dict(req=reqs[i % len(reqs)], unit=UNITS[i % 4], script=[(b, {"k": i})] + tail),
+                                           dict(req=reqs[(i * 3 + 1) % len(reqs)], unit=UNITS[i % 4], script=[])]))
+    return specs
 
 
 def foreign_then_own_specs():
